@@ -1,0 +1,13 @@
+//go:build verif
+
+package functions
+
+// Exported wrappers used only by the external verification harness (build tag verif).
+
+func VerifBridgeMatchesLike(text, pattern string) bool {
+	return GetExprBridge().matchesLikePattern(text, pattern)
+}
+
+func VerifConvertLikeToFunction(field, pattern string) string {
+	return GetExprBridge().convertLikeToFunction(field, pattern)
+}
